@@ -19,6 +19,7 @@ import numpy as np
 import sympy as sp
 
 from .. import core
+from ..symla import is_artefact as symla_is_artefact
 from ..symla import (SE, Undecided, compare, dense_det, dense_inv, eye, mat, orth, posvec, register_eigh, shimmed, sym, to_obj, tri, vec)
 
 
@@ -254,7 +255,7 @@ class Collector:
             return
         except Exception as e:  # noqa: BLE001
             tb = traceback.format_exc().strip().splitlines()
-            self.obs.append((oid, core.FAILED, "symla", time.time() - t0, f"{type(e).__name__}: {e} [{tb[-3].strip() if len(tb) > 2 else ''}]", None, text))
+            self.obs.append((oid, core.UNKNOWN if symla_is_artefact(e) else core.FAILED, "symla", time.time() - t0, f"{type(e).__name__}: {e} [{tb[-3].strip() if len(tb) > 2 else ''}]", None, text))
             return
         if st == "equal":
             self.obs.append((oid, core.DISCHARGED, "symla:" + be, time.time() - t0, "", None, text))
@@ -339,7 +340,7 @@ def full_suite(C, M, tag, X, V, depth, lite2=False):
         except NotImplementedError:
             continue
         except Exception as e:  # noqa: BLE001
-            C.obs.append((tag + lab + "/construct", core.FAILED, "symla", 0.0, f"{type(e).__name__}: {e}", None, None))
+            C.obs.append((tag + lab + "/construct", (core.UNKNOWN if symla_is_artefact(e) else core.FAILED), "symla", 0.0, f"{type(e).__name__}: {e}", None, None))
             continue
         if DV is None:
             try:
@@ -365,7 +366,7 @@ def full_suite(C, M, tag, X, V, depth, lite2=False):
                 except NotImplementedError:
                     continue
                 except Exception as e:  # noqa: BLE001
-                    C.obs.append((tag + lab + lab2 + "/construct", core.FAILED, "symla", 0.0, f"{type(e).__name__}: {e}", None, None))
+                    C.obs.append((tag + lab + lab2 + "/construct", (core.UNKNOWN if symla_is_artefact(e) else core.FAILED), "symla", 0.0, f"{type(e).__name__}: {e}", None, None))
         else:
             shallow_suite(C, M, tag + lab, D, DV)
 
@@ -430,6 +431,26 @@ def operand_dtypes(run_):
     run_.bounded.append({"id": "C10/matrices.*/products-independent-of-operand-dtype", "detail": "one instance per class and its transpose / inverse / sqrt; int64, bool, float32 operands"})
 
 
+def sqrt_order_and_conditioning(run_):
+    """BOUNDED native stand-in: the contracts are over the reals, where a square root built from a Cholesky factor and one built from an eigendecomposition
+    (possibly with floored eigenvalues) cannot be told apart unless an eigenvalue is tiny; the real positive definite classes on well- and ill-conditioned
+    instances (condition number 1e10), for 8 orders in which the lazily computed attributes are requested before `sqrt`."""
+    import subprocess
+    script = os.path.join(core.VERIF, "replays", "c10_sqrt_order.py")
+    try:
+        p = subprocess.run([core.NATIVE_PY, script, "json"], capture_output=True, text=True, timeout=300, env=dict(os.environ, PYTHONPATH=core.SRC))
+        res = json.loads(p.stdout.strip().splitlines()[-1])
+    except Exception as e:  # noqa: BLE001
+        run_.ob("matrices/sqrt-factor-accurate-in-any-request-order", core.ERROR, "native-exec", detail=f"{type(e).__name__}: {e}", klass="bounded")
+        return
+    for name, bad in res.items():
+        run_.ob(f"matrices.{name}/sqrt-factor-accurate-in-any-request-order", core.DISCHARGED if not bad else core.FAILED, "native-exec", klass="bounded",
+                detail="" if not bad else "; ".join(bad)[:600], witness={"failures": bad} if bad else None,
+                replay=(lambda w: {"script": "c10_sqrt_order.py", "args": ["check"], "timeout": 300}) if bad else None,
+                text="bounded: sqrt @ sqrt.T == matrix to 1e-12 (relative) for 8 request orders of the lazy attributes, condition numbers 10 and 1e10")
+    run_.bounded.append({"id": "C10/matrices.*/sqrt-factor-accurate-in-any-request-order", "detail": "7 positive definite instances x 2 condition numbers x 8 request orders"})
+
+
 def log_space_obligations(run_):
     """`log_abs_det` is documented as the logarithm of |det|: its value must be finite whenever that logarithm is, for every size
     -- so no implementation may form the determinant (or the product of a diagonal) itself, which over/underflows in double
@@ -477,6 +498,7 @@ def run(run_, tier):
     run_.notes.append(f"factories: {names}")
     log_space_obligations(run_)
     operand_dtypes(run_)
+    sqrt_order_and_conditioning(run_)
     # Engine D: the composite classes (and ring-level leaf classes) for ALL dimensions, operands = contract stubs
     c10_generic.run_generic(run_, tier)
     c10_generic.lean_finish(run_, lean)
